@@ -32,6 +32,10 @@ def configs(tier, seed):
                 for form in ("numpy", "pandas", "csv"):
                     key = f"export/{form}/" + "+".join(f"{a}>{b}:{d or '-'}" for (a, b), d in zip(fs, fdims)) + "/stocks=" + ",".join(str(s) for s in sc)
                     out.append(dict(h="export", op=form, key=key, procs=procs, flows=[list(p) for p in fs], fdims=fdims, stocks=sc, form=form))
+                    if form == "csv" and rot == 0 and i % 3 == 0:
+                        # names longer than any file-name limit one might think of: one file per array all the same
+                        out.append(dict(h="export", op=form + "long", key=key + "/long_names", procs=procs, flows=[list(p) for p in fs], fdims=fdims, stocks=sc, form=form,
+                                        name_prefix="material flows of the regional building stock model, scenario with extended lifetimes: "))
                     if form == "numpy" and rot == 0:
                         out.append(dict(h="export", op=form + "ids", key=key + "/permuted_ids", procs=procs, flows=[list(p) for p in fs], fdims=fdims, stocks=sc, form=form, permuted_ids=True))
     # MFADefinition.to_dfs: purely structural (no numeric content exists): every subset of non-empty kinds of definition
@@ -152,11 +156,15 @@ def run(cfg, w):
             else:
                 _check_df(w, f"stock_df[{name}]", got, d, ST)
     else:
-        calls = []
+        calls, lossy = [], []
         orig = pd.DataFrame.to_csv
 
         def rec(self, path=None, *a, **k):
             calls.append((path, self.copy()))
+            # the recorder stands for to_csv with pandas' default number formatting (shortest round-trip repr): any
+            # formatting option that changes how values are written voids that
+            fmt = {n: v for n, v in k.items() if n in ("float_format", "decimal", "na_rep", "columns", "header", "index", "quoting") and v not in (None, ".", "", True)}
+            lossy.extend(sorted(fmt.items()) + list(a))
 
         tmp = tempfile.mkdtemp(prefix="flodym_c19_")
         pd.DataFrame.to_csv = rec
@@ -170,6 +178,7 @@ def run(cfg, w):
         finally:
             pd.DataFrame.to_csv = orig
             shutil.rmtree(tmp, ignore_errors=True)
+        w.ob("csv_written_with_default_formatting", not lossy, info=str(lossy[:3]))
         w.ob("one_file_per_flow", len(flow_calls) == len(F) and len({p for p, _ in flow_calls}) == len(F))
         for (path, df), (name, (a, b, d, V)) in zip(flow_calls, F.items()):
             w.ob(f"flow_file_name[{name}]", os.path.basename(path) == to_valid_file_name(name) + ".csv")
